@@ -12,6 +12,7 @@ Definition children (g : goval) : list goval :=
   | GMap (Some m) => map snd m
   | GStruct fs => map (fun fd => snd (snd (snd fd))) fs
   | GPtr (Some g') | GIface (Some g') => [g']
+  | GMarshal _ u => [u]
   | _ => []
   end.
 
@@ -36,6 +37,7 @@ Section GovalInd.
               end) fs
        | GPtr (Some g') => Forall_cons g' (goval_ind' g') (Forall_nil P)
        | GIface (Some g') => Forall_cons g' (goval_ind' g') (Forall_nil P)
+       | GMarshal _ u => Forall_cons u (goval_ind' u) (Forall_nil P)
        | _ => Forall_nil P
        end).
 End GovalInd.
@@ -124,14 +126,38 @@ Proof.
   destruct (decode_rune name) as [r w]. cbn [fst snd]. rewrite to_lower_spec_lower, drop_skipn. reflexivity.
 Qed.
 
-Lemma wrap64_small z : (0 <= z < two63)%Z -> wrap64 z = z.
-Proof. intros H. unfold wrap64. rewrite Z.mod_small; unfold two63, two64 in *; lia. Qed.
+(* ================= unsigned integers above MaxInt64 ================= *)
 
-Lemma wrap64_big z : (two63 <= z < two64)%Z -> wrap64 z = (z - two64)%Z.
+Lemma strip2_value p : forall e q e', (0 <= e)%Z -> strip2 p e = (q, e') ->
+  (e <= e')%Z /\ (Zpos q * 2 ^ e' = Zpos p * 2 ^ e)%Z.
 Proof.
-  intros H. unfold wrap64.
-  replace (z + two63)%Z with ((z - two63) + 1 * two64)%Z by (unfold two63, two64; lia).
-  rewrite Z.mod_add by (unfold two64; lia). rewrite Z.mod_small; unfold two63, two64 in *; lia.
+  induction p as [p IH|p IH|]; intros e q e' He H; cbn [strip2] in H.
+  - injection H as <- <-. split; [lia | reflexivity].
+  - apply IH in H; [|lia]. destruct H as [Hle Hv]. split; [lia|].
+    rewrite Hv. replace (e + 1)%Z with (Z.succ e) by lia. rewrite Z.pow_succ_r by lia.
+    change (Z.pos p~0) with (2 * Z.pos p)%Z. lia.
+  - injection H as <- <-. split; [lia | reflexivity].
+Qed.
+
+(* float64(u) is within half a unit in the last place (2^10) of u, hence within relative error 2^-53 *)
+Lemma float_of_big_uint_near z : (two63 <= z)%Z ->
+  exists m e, float_of_big_uint z = FFin m e /\ (0 <= e)%Z /\ (Z.abs (m * 2 ^ e - z) * two53 <= z)%Z.
+Proof.
+  intros Hz. unfold float_of_big_uint.
+  pose proof (Z.div_mod z 2048 ltac:(lia)) as Hdm.
+  pose proof (Z.mod_pos_bound z 2048 ltac:(lia)) as Hr.
+  set (q := (z / 2048)%Z) in *. set (r := (z mod 2048)%Z) in *.
+  assert (Hq : (two63 / 2048 <= q)%Z) by (unfold q; apply Z.div_le_mono; lia).
+  change (two63 / 2048)%Z with 4503599627370496%Z in Hq.
+  set (q' := (if r <? 1024 then q else if 1024 <? r then q + 1 else if Z.even q then q else q + 1)%Z).
+  assert (Hq' : (0 < q' /\ Z.abs (q' * 2048 - z) <= 1024)%Z).
+  { unfold q'. destruct (Z.ltb_spec r 1024); [lia|]. destruct (Z.ltb_spec 1024 r); [lia|].
+    destruct (Z.even q); lia. }
+  destruct Hq' as [Hpos Hnear]. destruct q' as [|p|p]; try lia.
+  destruct (strip2 p 11) as [m e] eqn:Hs.
+  apply strip2_value in Hs; [|lia]. destruct Hs as [He Hv].
+  exists (Zpos m), e. split; [reflexivity|]. split; [lia|].
+  rewrite Hv. change (2 ^ 11)%Z with 2048%Z. unfold two53, two63 in *. lia.
 Qed.
 
 (* ================= convert_shape ================= *)
@@ -144,39 +170,40 @@ Section Shape.
   Notation converts := (converts lc hi).
 
   Definition shape_at (g : goval) : Prop :=
-    uints_fit g = true -> forall ctx n v n', conv ctx g n = Ok (v, n') -> converts g v.
-
-  Lemma forallb_Forall {A} (p : A -> bool) l : forallb p l = true -> Forall (fun x => p x = true) l.
-  Proof. rewrite forallb_forall, Forall_forall. auto. Qed.
+    forall ctx n v n', conv ctx g n = Ok (v, n') -> converts g v.
 
   Theorem conv_shape : forall g, shape_at g.
   Proof.
-    apply goval_ind'. intros g IH Hfit ctx n v n' H.
-    destruct g as [|x|w z|w z|w f|s|s|[l|]|[m|]|cnt|fs|[g'|]|[g'|]|mv|ev|]; cbn [conv] in H.
+    apply goval_ind'. intros g IH ctx n v n' H.
+    destruct g as [|x|w z|w z|w f|s|s|[l|]|[m|]|cnt|fs|[g'|]|mar|[g'|]|mv u|ev|]; cbn [conv] in H.
     - injection H as <- <-. constructor.
     - injection H as <- <-. constructor.
     - injection H as <- <-. constructor.
-    - injection H as <- <-. cbn [uints_fit] in Hfit. rewrite wrap64_small by lia. constructor.
+    - (* unsigned *)
+      destruct (Z.ltb_spec z two63) as [Hlt|Hge].
+      + injection H as <- <-. constructor. exact Hlt.
+      + injection H as <- <-. destruct (float_of_big_uint_near z Hge) as (m & e & -> & He & Hn).
+        constructor; assumption.
     - injection H as <- <-. constructor.
     - injection H as <- <-. constructor.
     - injection H as <- <-. constructor.
     - (* slice *)
-      cbn [children] in IH. cbn [uints_fit] in Hfit. apply forallb_Forall in Hfit.
+      cbn [children] in IH.
       destruct (match l with [] => (zerobase_id, n) | _ :: _ => (n, n + 1) end) as [id n1].
       apply bind_ok in H as ([vs n2] & Ht & H). injection H as <- <-.
       constructor. apply thread_threaded in Ht.
-      clear - IH Hfit Ht. induction Ht as [|x r k o k1 ys k2 Hf _ IHt]; [constructor|].
-      inversion IH as [|? ? IHx IHr]; subst. inversion Hfit as [|? ? Fx Fr]; subst.
+      clear - IH Ht. induction Ht as [|x r k o k1 ys k2 Hf _ IHt]; [constructor|].
+      inversion IH as [|? ? IHx IHr]; subst.
       apply bind_ok in Hf as ([v k'] & Hc & Hf). injection Hf as <- <-.
       constructor; [eapply IHx; eassumption | apply IHt; assumption].
     - injection H as <- <-. constructor.
     - (* map *)
-      cbn [children] in IH. cbn [uints_fit] in Hfit. apply forallb_Forall in Hfit.
+      cbn [children] in IH.
       apply bind_ok in H as ([kvs n2] & Ht & H). injection H as <- <-.
       apply thread_threaded in Ht.
       assert (HF : Forall2 (fun a c => fst a = fst c /\ converts (snd a) (snd c)) m kvs).
-      { clear - IH Hfit Ht. induction Ht as [|kx r k o k1 ys k2 Hf _ IHt]; [constructor|].
-        cbn [map] in IH. inversion IH as [|? ? IHx IHr]; subst. inversion Hfit as [|? ? Fx Fr]; subst.
+      { clear - IH Ht. induction Ht as [|kx r k o k1 ys k2 Hf _ IHt]; [constructor|].
+        cbn [map] in IH. inversion IH as [|? ? IHx IHr]; subst.
         apply bind_ok in Hf as ([v k'] & Hc & Hf). injection Hf as <- <-.
         constructor; [split; [reflexivity | eapply IHx; eassumption] | apply IHt; assumption]. }
       constructor.
@@ -187,13 +214,13 @@ Section Shape.
     - injection H as <- <-. constructor.
     - destruct (N.eqb_spec cnt 0) as [->|]; [|discriminate]. injection H as <- <-. constructor.
     - (* struct *)
-      cbn [children] in IH. cbn [uints_fit] in Hfit. apply forallb_Forall in Hfit.
+      cbn [children] in IH.
       apply bind_ok in H as ([kvs n2] & Ht & H). injection H as <- <-.
       apply thread_threaded in Ht.
       assert (HF : Forall2 (fun a c => fst a = fst c /\ converts (snd a) (snd c)) (struct_entries lc hi fs) kvs).
-      { clear - IH Hfit Ht. unfold struct_entries.
+      { clear - IH Ht. unfold struct_entries.
         induction Ht as [|fd r k o k1 ys k2 Hf _ IHt]; [constructor|].
-        cbn [map] in IH. inversion IH as [|? ? IHx IHr]; subst. inversion Hfit as [|? ? Fx Fr]; subst.
+        cbn [map] in IH. inversion IH as [|? ? IHx IHr]; subst.
         cbn [filter]. destruct (fst (snd fd)).
         - apply bind_ok in Hf as ([v k'] & Hc & Hf). injection Hf as <- <-. cbn [map].
           constructor; [split; [cbn [fst]; symmetry; apply field_key_spec_key | eapply IHx; eassumption] | apply IHt; assumption].
@@ -205,32 +232,161 @@ Section Shape.
         rewrite assoc_s_build_map. exact HL.
     - cbn [children] in IH. inversion IH as [|? ? IHx _]; subst. constructor. eapply IHx; eassumption.
     - injection H as <- <-. constructor.
+    - (* typed nil pointer *)
+      destruct mar, ctx; try discriminate; injection H as <- <-; constructor.
     - cbn [children] in IH. inversion IH as [|? ? IHx _]; subst. constructor. eapply IHx; eassumption.
     - injection H as <- <-. constructor.
-    - destruct ctx; try discriminate; injection H as <- <-; constructor.
-    - destruct ctx; try discriminate; injection H as <- <-; constructor.
+    - (* Marshaler *)
+      cbn [children] in IH. inversion IH as [|? ? IHx _]; subst.
+      destruct ctx.
+      + injection H as <- <-. apply cv_marshal.
+      + injection H as <- <-. apply cv_marshal.
+      + apply cv_marshal_plain. eapply IHx; eassumption.
+    - (* data.Value *)
+      destruct ctx; [injection H as <- <-; apply cv_value | discriminate |].
+      destruct ev as [| |x|z|f|s|id l|id m].
+      + injection H as <- <-. apply cv_value_plain. constructor.
+      + injection H as <- <-. apply cv_value_plain. constructor.
+      + injection H as <- <-. apply cv_value.
+      + injection H as <- <-. apply cv_value.
+      + injection H as <- <-. apply cv_value.
+      + injection H as <- <-. apply cv_value.
+      + destruct l; injection H as <- <-; apply cv_value_plain; constructor.
+      + injection H as <- <-. apply cv_value_plain. constructor.
     - discriminate.
   Qed.
 End Shape.
 
-Theorem convert_shape hi lc g v : uints_fit g = true -> convert_with hi lc g = Ok v -> converts lc hi g v.
+Theorem convert_shape hi lc g v : convert_with hi lc g = Ok v -> converts lc hi g v.
 Proof.
-  unfold convert_with. intros Hfit H. apply bind_ok in H as ([v0 n'] & Hc & H). injection H as <-.
+  unfold convert_with. intros H. apply bind_ok in H as ([v0 n'] & Hc & H). injection H as <-.
   eapply conv_shape; eassumption.
 Qed.
 
-(* the full statement (without the guard) is false: an unsigned integer >= 2^63 *)
-Theorem convert_shape_refuted hi lc :
-  exists g v, convert_with hi lc g = Ok v /\ ~ converts lc hi g v.
+(* an unsigned integer above MaxInt64: the Float nearest to it, never an Int *)
+Theorem convert_uint_big hi lc w z : (two63 <= z)%Z ->
+  exists m e, convert_with hi lc (GUint w z) = Ok (VFloat (FFin m e)) /\
+              (0 <= e)%Z /\ (Z.abs (m * 2 ^ e - z) * two53 <= z)%Z.
 Proof.
-  exists (GUint 64 two63), (VInt (- two63)). split; [reflexivity|].
-  intros H. inversion H.
+  intros Hz. destruct (float_of_big_uint_near z Hz) as (m & e & Hf & He & Hn).
+  exists m, e. split; [|split; assumption].
+  unfold convert_with. cbn [conv]. destruct (Z.ltb_spec z two63); [lia|]. rewrite Hf. reflexivity.
 Qed.
 
-(* what happens to them, exactly *)
-Theorem convert_uint_wraps hi lc w z : (two63 <= z < two64)%Z ->
-  convert_with hi lc (GUint w z) = Ok (VInt (z - two64)).
-Proof. intros H. unfold convert_with. cbn. rewrite wrap64_big by assumption. reflexivity. Qed.
+Theorem convert_uint_small hi lc w z : (z < two63)%Z -> convert_with hi lc (GUint w z) = Ok (VInt z).
+Proof.
+  intros Hz. unfold convert_with. cbn [conv]. destruct (Z.ltb_spec z two63); [reflexivity | lia].
+Qed.
+
+(* ================= pointer chains of any depth ================= *)
+
+Fixpoint ptrs (k : nat) (g : goval) : goval :=
+  match k with O => g | S k' => GPtr (Some (ptrs k' g)) end.
+
+Lemma conv_ptrs_deep lc hi k g n : conv lc hi CDeep (ptrs k g) n = conv lc hi CDeep g n.
+Proof. induction k as [|k IH]; [reflexivity | exact IH]. Qed.
+
+Lemma conv_ptrs_ptr lc hi k g n : conv lc hi CPtr (ptrs (S k) g) n = conv lc hi CDeep g n.
+Proof. cbn [ptrs conv]. apply conv_ptrs_deep. Qed.
+
+(* two or more pointers: NewWith's drilling loop; what is found there converts by its kind *)
+Theorem conv_ptr_chain lc hi k g n : conv lc hi CSlot (ptrs (S (S k)) g) n = conv lc hi CDeep g n.
+Proof. cbn [ptrs conv]. apply conv_ptrs_deep. Qed.
+
+(* a Marshaler (value receiver): MarshalValue at the argument itself and one pointer below ... *)
+Theorem conv_marshal_direct lc hi v u n :
+  conv lc hi CSlot (GMarshal v u) n = Ok (v, n) /\ conv lc hi CSlot (GPtr (Some (GMarshal v u))) n = Ok (v, n).
+Proof. split; reflexivity. Qed.
+
+(* ... and behind any longer chain the plain value it is *)
+Theorem conv_marshal_deep lc hi k v u n :
+  conv lc hi CSlot (ptrs (S (S k)) (GMarshal v u)) n = conv lc hi CDeep u n.
+Proof. rewrite conv_ptr_chain. reflexivity. Qed.
+
+(* an existing data.Value behind two or more pointers: its plain image, always *)
+Theorem conv_value_deep lc hi k v n :
+  exists r n', conv lc hi CSlot (ptrs (S (S k)) (GValue v)) n = Ok (r, n') /\ plain_of v r.
+Proof.
+  rewrite conv_ptr_chain. cbn [conv].
+  destruct v as [| |x|z|f|s|id l|id m]; try (eexists; eexists; split; [reflexivity | constructor]).
+  destruct l; eexists; eexists; (split; [reflexivity | constructor]).
+Qed.
+
+(* a nil pointer at the end of any chain is null -- also the typed nil pointer to a value-receiver Marshaler
+   (after REPAIR C20-nil-marshaler) -- except the typed nil pointer to a data.Value type passed directly
+   (returned as it is) *)
+Theorem conv_nil_chain lc hi k m n :
+  conv lc hi CSlot (ptrs k (GPtr None)) n = Ok (VNull, n) /\
+  conv lc hi CSlot (ptrs k (GNilPtrTo true)) n = Ok (VNull, n) /\
+  conv lc hi CSlot (ptrs (S k) (GNilPtrTo m)) n = Ok (VNull, n) /\
+  conv lc hi CSlot (GNilPtrTo false) n = OutOfModel.
+Proof.
+  repeat split.
+  - destruct k as [|[|k]]; [reflexivity | reflexivity | rewrite conv_ptr_chain; reflexivity].
+  - destruct k as [|[|k]]; [reflexivity | reflexivity | rewrite conv_ptr_chain; reflexivity].
+  - destruct k as [|k]; [destruct m; reflexivity | rewrite conv_ptr_chain; destruct m; reflexivity].
+Qed.
+
+(* ================= what is outside the model, exactly ================= *)
+
+Lemma thread_oom {A B} (f : A -> N -> outcome (option B * N)) l : forall n,
+  thread f l n = OutOfModel -> exists x k, In x l /\ f x k = OutOfModel.
+Proof.
+  induction l as [|x r IH]; intros n H; cbn [thread] in H; [discriminate|].
+  destruct (f x n) as [[o n1]| | | | |] eqn:Hf; cbn [bind] in H; try discriminate.
+  - destruct (thread f r n1) as [[ys n2]| | | | |] eqn:Hr; cbn [bind] in H; try discriminate.
+    destruct (IH n1 Hr) as (y & k & Hin & Hy). exists y, k. split; [right; exact Hin | exact Hy].
+  - exists x, n. split; [left; reflexivity | exact Hf].
+Qed.
+
+Theorem conv_outofmodel lc hi : forall g ctx n, conv lc hi ctx g n = OutOfModel -> ptr_to_value ctx g = true.
+Proof.
+  apply (goval_ind' (fun g => forall ctx n, conv lc hi ctx g n = OutOfModel -> ptr_to_value ctx g = true)).
+  intros g IH ctx n H.
+  destruct g as [|x|w z|w z|w f|s|s|[l|]|[m|]|cnt|fs|[g'|]|mar|[g'|]|mv u|ev|]; cbn [conv] in H; try discriminate.
+  - destruct (z <? two63)%Z; discriminate.
+  - (* slice *)
+    cbn [children] in IH. cbn [ptr_to_value].
+    destruct (match l with [] => (zerobase_id, n) | _ :: _ => (n, n + 1) end) as [id n1].
+    destruct (thread _ l n1) as [[vs n2]| | | | |] eqn:Ht; cbn [bind] in H; try discriminate.
+    apply thread_oom in Ht as (x & k & Hin & Hx).
+    apply existsb_exists. exists x. split; [exact Hin|].
+    rewrite Forall_forall in IH. apply (IH x Hin CSlot k).
+    destruct (conv lc hi CSlot x k) as [[v k']| | | | |]; cbn [bind] in Hx; try discriminate. reflexivity.
+  - (* map *)
+    cbn [children] in IH. cbn [ptr_to_value].
+    destruct (thread _ m (n + 1)) as [[vs n2]| | | | |] eqn:Ht; cbn [bind] in H; try discriminate.
+    apply thread_oom in Ht as (x & k & Hin & Hx).
+    apply existsb_exists. exists x. split; [exact Hin|].
+    rewrite Forall_forall in IH. apply (IH (snd x) (in_map snd _ _ Hin) CSlot k).
+    destruct (conv lc hi CSlot (snd x) k) as [[v k']| | | | |]; cbn [bind] in Hx; try discriminate. reflexivity.
+  - destruct (cnt =? 0); discriminate.
+  - (* struct *)
+    cbn [children] in IH. cbn [ptr_to_value].
+    destruct (thread _ fs (n + 1)) as [[vs n2]| | | | |] eqn:Ht; cbn [bind] in H; try discriminate.
+    apply thread_oom in Ht as (x & k & Hin & Hx).
+    apply existsb_exists. exists x. split; [exact Hin|].
+    destruct (fst (snd x)); [|discriminate]. cbn [andb].
+    rewrite Forall_forall in IH.
+    apply (IH (snd (snd (snd x))) (in_map (fun fd => snd (snd (snd fd))) _ _ Hin) CSlot k).
+    destruct (conv lc hi CSlot (snd (snd (snd x))) k) as [[v k']| | | | |]; cbn [bind] in Hx; try discriminate. reflexivity.
+  - cbn [children] in IH. inversion IH as [|? ? IHx _]; subst. cbn [ptr_to_value]. eapply IHx; exact H.
+  - destruct mar, ctx; try discriminate; reflexivity.
+  - cbn [children] in IH. inversion IH as [|? ? IHx _]; subst. cbn [ptr_to_value]. eapply IHx; exact H.
+  - cbn [children] in IH. inversion IH as [|? ? IHx _]; subst. cbn [ptr_to_value].
+    destruct ctx; try discriminate. eapply IHx; exact H.
+  - cbn [ptr_to_value]. destruct ctx; try discriminate; [reflexivity|].
+    destruct ev as [| |x|z|f|s|id l|id m]; try discriminate.
+    destruct l; discriminate.
+Qed.
+
+(* NewWith either converts, panics, or (exactly at a pointer to a data.Value, see Spec/ConvertSpec.v) returns that pointer *)
+Theorem convert_outofmodel hi lc g : convert_with hi lc g = OutOfModel -> ptr_to_value CSlot g = true.
+Proof.
+  unfold convert_with. intros H.
+  destruct (conv lc hi CSlot g (start_id g)) as [[v n']| | | | |] eqn:Hc; cbn [bind] in H; try discriminate.
+  eapply conv_outofmodel; exact Hc.
+Qed.
 
 (* ================= idempotence ================= *)
 
